@@ -134,6 +134,8 @@ func (h *Hist) Liab(s snap.Snapshot) map[string]uint64 {
 	return l
 }
 
+var liabCategories = []string{"dp_balance", "dp_reward", "sp_reward", "write_pools", "challenge_pools", "read_pools", "vesting_pools"}
+
 // liabBreakdown lists the liability components of a contract (for violation details).
 func (h *Hist) liabBreakdown(s snap.Snapshot, c string) map[string]uint64 {
 	out := map[string]uint64{}
@@ -145,6 +147,11 @@ func (h *Hist) liabBreakdown(s snap.Snapshot, c string) map[string]uint64 {
 		for _, d := range v.Pools {
 			out["dp_balance"] += d.Balance
 			out["dp_reward"] += d.Reward
+		}
+	}
+	if c == vestingsc.ADDRESS {
+		for _, p := range h.vestingPools(s) {
+			out["vesting_pools"] += p.Balance
 		}
 	}
 	if c == storagesc.ADDRESS {
@@ -209,6 +216,19 @@ func monC09(h *Hist, o *TxnObs) {
 	}
 	// tokens this transaction moved INTO each contract wallet (a failed call only pays its fee)
 	inflow := map[string]int64{}
+	out := map[string]int64{} // tokens this transaction paid out of each contract wallet
+	if o.Outcome != "failed" {
+		for _, t := range o.Tr {
+			if t.ClientID != t.ToClientID {
+				out[t.ClientID] += int64(t.Amount)
+			}
+		}
+		for _, t := range o.STr {
+			if t.ClientID != t.ToClientID {
+				out[t.ClientID] += int64(t.Amount)
+			}
+		}
+	}
 	if o.Outcome == "failed" {
 		inflow[minersc.ADDRESS] = int64(o.Txn.Fee)
 	} else {
@@ -236,12 +256,44 @@ func monC09(h *Hist, o *TxnObs) {
 		if dl > dw+int64(acc[c]) {
 			a, b := h.liabBreakdown(o.Pre, c), h.liabBreakdown(o.Post, c)
 			parts := ""
-			for _, k := range []string{"dp_balance", "dp_reward", "sp_reward", "write_pools", "challenge_pools", "read_pools"} {
+			for _, k := range liabCategories {
 				if a[k] != b[k] {
 					parts += fmt.Sprintf(" %s%+d", k, int64(b[k])-int64(a[k]))
 				}
 			}
 			h.V("C09", "liability-grew-without-backing:"+o.Call.Name, fmt.Sprintf("%s (%s): contract %s liabilities %+d but only %d tokens moved into its wallet and accrual allowance %d [%s ]", o.Call.Name, o.Outcome, h.name(c), dl, dw, acc[c], parts), o)
+			continue
+		}
+		// "No operation credits a pool or a reward without a matching debit or deposit": a debit that this very transaction paid
+		// out of the contract wallet cannot back a credit as well. Credits and debits are taken per liability category (netting
+		// inside a category only weakens the check); what the wallet paid out consumes debits first, and paying out more than was
+		// debited (the faucet pouring its own tokens) is not restricted here.
+		if dl == 0 && out[c] == 0 {
+			continue
+		}
+		a, b := h.liabBreakdown(o.Pre, c), h.liabBreakdown(o.Post, c)
+		var credits, debits int64
+		parts := ""
+		for _, k := range liabCategories {
+			d := int64(b[k]) - int64(a[k])
+			if d > 0 {
+				credits += d
+			} else {
+				debits -= d
+			}
+			if d != 0 {
+				parts += fmt.Sprintf(" %s%+d", k, d)
+			}
+		}
+		avail := debits - out[c]
+		if avail < 0 {
+			avail = 0
+		}
+		if credits > 0 {
+			h.C("C09", "credit_matching_checked")
+		}
+		if credits > avail+dw+int64(acc[c]) {
+			h.V("C09", "credit-without-matching-debit:"+o.Call.Name, fmt.Sprintf("%s (%s): contract %s credited %d to pools/rewards; debits %d of which %d were paid out of the wallet, deposits %d, accrual allowance %d [%s ]", o.Call.Name, o.Outcome, h.name(c), credits, debits, out[c], dw, acc[c], parts), o)
 		}
 	}
 }
